@@ -729,6 +729,13 @@ def lock_shapes():
     A(P("rw-write-3", SJ(3) + JJ(3), [L("write", "l"), wr("c_l"), L("unlockw", "l")], [L("write", "l"), wr("c_l"), L("unlockw", "l")],
         [L("write", "l"), wr("c_l"), L("unlockw", "l")]))
     A(P("handover-chain", SJ(3) + JJ(3), CS("m", wr("c"), st("x", 1)), CS("m", ld("x"), wr("c")), CS("m", ld("x"), rd("c"))))
+    # the protected value: through the guard, get_mut and into_inner
+    A(P("mutex-value", SJ(2) + JJ(2) + [L("mgetmut", "m"), L("minto", "m")], CS("m", L("mget", "m"), L("mset", "m", v=1)), CS("m", L("mget", "m"), L("mset", "m", v=2))))
+    A(P("mutex-value-try", SJ(2) + JJ(2) + [L("minto", "m")], CS("m", L("mset", "m", v=1), ld("x")),
+        [L("trylock", "m"), br(1, 1, 3), L("mget", "m"), L("mset", "m", v=2), L("unlock", "m")]))
+    A(P("rw-value", SJ(3) + JJ(3) + [L("rwgetmut", "l"), L("rwinto", "l")], [L("write", "l"), L("rwget", "l"), L("rwset", "l", v=1), L("unlockw", "l")],
+        [L("read", "l"), L("rwget", "l"), L("unlockr", "l")], [L("write", "l"), L("rwset", "l", v=2), L("unlockw", "l")]))
+    A(P("mutex-value-cv", SJ(2) + JJ(2) + [L("minto", "m")], CS("m", L("cvwait", "cv", o2="m"), L("mget", "m")), CS("m", L("mset", "m", v=7), L("notify1", "cv"))))
     # a yield inside the critical section is the only way to make loom overlap sections / observe a held lock
     Y = I("yield")
     A(P("rw-overlap-readers-then-writer", SJ(3) + JJ(3), [L("read", "l"), Y, rd("c_l"), L("unlockr", "l")],
